@@ -88,6 +88,53 @@ def gen_op(r, segm_labels, ny, nx):
     return (('setdata', newd), None, 'setdata')
 
 
+def consecutive(d, start=1):
+    labs = [int(v) for v in np.unique(d) if v != 0]
+    out = np.zeros_like(d)
+    for i, l in enumerate(labs):
+        out[d == l] = start + i
+    return out
+
+
+def documented_effect(line, before):
+    """(S) the documented set-theoretic effect of a successful mutator on the label array (independent numpy reference)"""
+    t = line.split()
+    op = t[0]
+    d = before.copy()
+    nat = lambda tok: [] if tok == '-' else [int(v) for v in tok.split(',')]
+    if op == 'segm.relabel':
+        return consecutive(d, int(t[1]))
+    if op == 'segm.reassign':
+        ls, new, rl = nat(t[1]), int(t[2]), t[3] == '1'
+        d[np.isin(d, ls)] = new
+    elif op == 'segm.keep':
+        ls, rl = nat(t[1]), t[2] == '1'
+        d[~np.isin(d, ls)] = 0
+    elif op == 'segm.remove':
+        ls, rl = nat(t[1]), t[2] == '1'
+        d[np.isin(d, ls)] = 0
+    elif op == 'segm.rmborder':
+        w, po, rl = int(t[1]), t[2] == '1', t[3] == '1'
+        border = np.zeros(d.shape, bool)
+        if w > 0:
+            border[:w, :] = border[-w:, :] = True
+            border[:, :w] = border[:, -w:] = True
+        for l in [int(v) for v in np.unique(d) if v != 0]:
+            sel = d == l
+            if (border[sel].any() if po else border[sel].all()):
+                d[sel] = 0
+    elif op == 'segm.rmmask':
+        m = np.array([c == '1' for c in t[1]], bool).reshape(d.shape)
+        po, rl = t[2] == '1', t[3] == '1'
+        for l in [int(v) for v in np.unique(d) if v != 0]:
+            sel = d == l
+            if (m[sel].any() if po else m[sel].all()):
+                d[sel] = 0
+    else:
+        return None
+    return consecutive(d) if rl else d
+
+
 def run_impl(f, segm):
     try:
         with warnings.catch_warnings():
@@ -252,7 +299,19 @@ def run(rep, tier):
                 hist['ops'].append('setdata ' + str(newd.tolist()))
                 mutated = True
             else:
+                before = np.array(segm.data).astype(np.int64)
                 out = run_impl(f, segm)
+                if out == 'ok' and not line.startswith('segm.read'):
+                    try:
+                        exp_d = documented_effect(line, before)
+                    except Exception:                           # noqa: BLE001
+                        exp_d = None
+                    if exp_d is not None and not np.array_equal(exp_d, np.array(segm.data).astype(np.int64)):
+                        rep.violation(f'documented-effect:{opk}', f'{line[:60]}: the label array is not the documented effect of the operation '
+                                      f'(labels now {sorted(int(v) for v in np.unique(segm.data) if v)}, documented {sorted(int(v) for v in np.unique(exp_d) if v)})',
+                                      dict(hist, ops=list(hist['ops']) + [line], dtype_obj=None))
+                        alive = False
+                        break
                 lines.append(line)
                 expect.append((h, k, out))
                 hist['ops'].append(line)
